@@ -38,6 +38,9 @@ def mk_cfg(rng, profile):
     return cfg
 
 
+HTTP_SHARE = 0.15
+
+
 class Gen:
     """Builds one history; keeps just enough bookkeeping to aim polls at interesting places."""
 
@@ -187,6 +190,13 @@ class Gen:
                  {"op": "create_topic", "stream": 1, "name": "t", "parts": 1, "id": 1,
                   "expiry": self.cfg.get("expiry"), "max_size": self.cfg.get("max_size")}]
         assert len(setup) == SETUP_OPS
+        # the HTTP API has handlers of its own for messages and offsets: some of the requests go through it (a consumer group cannot
+        # be used there - membership belongs to a connection)
+        hr = util.Rng(int(util.digest([self.tid, len(self.ops)])[:12], 16))
+        for op in self.ops:
+            if op["op"] in ("send", "poll", "store_offset", "get_offset", "delete_offset", "get_topic") and not op.get("decoy") \
+                    and (op.get("consumer") or {}).get("kind") != "group" and hr.random() < HTTP_SHARE:
+                op["c"] = "httproot"
         return {"id": self.tid, "cfg": self.cfg, "ops": setup + self.ops}
 
 
